@@ -31,8 +31,34 @@ ASSUME = ["the filter and router layers are checked by the MIR->SMT engine with 
 
 
 ASSUME_E3 = ["E3 (router, filter): radix_trie::Trie by its documented meaning (insert replaces the value of an equal key; get_ancestor returns the entry with the longest key that is a prefix of the argument), "
-             "AhoCorasick::is_match as an uninterpreted predicate of (case-insensitivity flag, name) for the configured pattern list (the automaton's own correctness is trusted); "
+             "AhoCorasick::is_match by its documented meaning: the haystack contains one of the patterns the automaton was built from, ASCII-case-insensitively if the builder flag was set (the automaton's own correctness is trusted); "
              "route patterns of 1 and 2 characters and names of 3 characters with symbolic content; recorders are recording doubles (every describe/register is observed)"]
+
+
+def replay_native(ob, scen, pname, inputs):
+    import replay_e3
+    os.makedirs(os.path.join(REPLAYS, "C13"), exist_ok=True)
+    pp = os.path.join(REPLAYS, "C13", f"{ob.name.split(':')[0]}.{pname}.plan")
+    open(pp, "w").write(replay_e3.plan_text(scen, pname, {}, [], inputs))
+    status, out = replay_e3.run("c13", pp)
+    ob.detail += f" | native replay (c13, public API with recording doubles): {status}"
+    if isinstance(ob.sample, dict):
+        ob.sample["native_replay"] = {"status": status, "output": out[-500:]}
+    ob.replay = pp
+    ob.reproduced = status == "reproduced"
+    if not ob.reproduced:
+        ob.status = "error"
+        ob.detail += " — counterexample did NOT reproduce natively: treated as an encoder/model problem, not reported as a violation"
+
+
+def text_inputs(model, prefix, chars):
+    d = {f"{prefix}_len": len(chars)}
+    for i, c in enumerate(chars):
+        d[f"{prefix}_{i}"] = model.eval(c, model_completion=True).as_long()
+    return d
+
+
+OPS = ["describe_counter", "describe_gauge", "describe_histogram", "register_counter", "register_gauge", "register_histogram"]
 
 
 def router(e3):
@@ -54,7 +80,13 @@ def router(e3):
             nm = [z3.BitVec(f"name_{i}", 32) for i in range(3)]
             m1, m2 = z3.BitVec("mask1", 8), z3.BitVec("mask2", 8)
             valid_masks = lambda m: z3.Or(m == 1, m == 2, m == 4, m == 7)
-            base = [valid_masks(m1), valid_masks(m2)]
+            base = [valid_masks(m1), valid_masks(m2)] + [z3.And(z3.UGE(c, 33), z3.ULE(c, 126)) for c in p1 + p2 + nm]
+
+            def on_model(ob, model, p1=p1, p2=p2, nm=nm, m1=m1, m2=m2, kind=kind):
+                inputs = {"mask1": model.eval(m1, model_completion=True).as_long(), "mask2": model.eval(m2, model_completion=True).as_long(), "op": OPS.index(f"describe_{kind.lower()}")}
+                inputs.update(text_inputs(model, "p1", p1)); inputs.update(text_inputs(model, "p2", p2)); inputs.update(text_inputs(model, "name", nm))
+                ob.sample = {k: (chr(v) if "_" in k and not k.endswith("_len") and k[0] in "pn" else v) for k, v in inputs.items()}
+                replay_native(ob, "c13_router", ob.name.split(":")[1], inputs)
 
             def is_prefix(p, s):
                 return z3.And(*[a == b for a, b in zip(p, s)]) if len(p) <= len(s) else z3.BoolVal(False)
@@ -127,15 +159,17 @@ def router(e3):
                  r"^core::slice::(.*::)?get_unchecked$": m_get_unchecked,
                  r"^KeyName::as_str$|^Key::name$": lambda eng, ctx, f, path, args, dty: MS.sstr(tuple(nm)),
                  r"as Recorder>::describe_(counter|gauge|histogram)$": m_dyn_call("describe"), r"as Recorder>::register_(counter|gauge|histogram)$": m_dyn_call("register"),
+                 r"Trie::new$|radix_trie::trie::new$": lambda *a: Native("trie", ()),
                  r"begin_panic$": lambda *a: sym.Diverge("panic", "cannot add route for unknown or empty metric kind mask")}
             m.update(models.BASE)
             eng = sym.Engine(P, models=m, loop_bound=4, max_paths=5000)
             eng.merging = False
             ctx0 = sym.Ctx(eng, 1)
-            empty = Native("trie", ())
-            ctx0.statics = {"rb": Agg({0: Native("rec", 0), 1: Agg({0: z3.BitVecVal(0, 8)}), 2: MS.lvec(()), 3: empty, 4: empty, 5: empty})}
+            from_b = [b for b in P.by_last["from_recorder"] if b.impl and b.impl[1] == "RouterBuilder"][0]
 
             def script():
+                rb0 = yield ("call", from_b, [Native("rec", 0)])
+                yield ("setstatic", "rb", rb0)
                 yield ("call", add_b, [Ptr(("static", "rb")), Agg({0: m1}), MS.sstr(tuple(p1)), Native("rec", 1)])
                 yield ("call", add_b, [Ptr(("static", "rb")), Agg({0: m2}), MS.sstr(tuple(p2)), Native("rec", 2)])
                 rb = yield ("getstatic", "rb")
@@ -170,103 +204,132 @@ def router(e3):
             specs = [dict(name=f"{cname}:witness", desc="completes", bounds=bounds, cons=base + [z3.Or(*[l.taken() for l in done] or [z3.BoolVal(False)])], expect_unsat=False),
                      dict(name=f"{cname}:returns", desc="panics or exceeds a loop bound", bounds=bounds, cons=base + [other], expect_unsat=True),
                      dict(name=f"{cname}:longest_applicable_route_wins", desc="the operation is not delivered to exactly one recorder: the target of the longest route for this kind that is a prefix of the name "
-                          "(a later identical pattern replaces an earlier one), or the default", bounds=bounds, cons=base + [z3.Or(*bad or [z3.BoolVal(False)])], expect_unsat=True)]
+                          "(a later identical pattern replaces an earlier one), or the default", bounds=bounds, cons=base + [z3.Or(*bad or [z3.BoolVal(False)])], expect_unsat=True, on_model=on_model)]
             check.discharge_many(e3.res, specs, 120)
 
 
 def filter_layer(e3):
-    """FilterLayer: layer(r1); reconfigure; layer(r2); an operation through each filter is dropped exactly when the automaton that the
-    *current* configuration describes matches the name"""
+    """FilterLayer built through its real constructor and setters: from_patterns([p0]); case_insensitive(b); use_dfa(b); layer(r1);
+    reconfigure (flags again, or add_pattern(p1)); layer(r2); then one operation through both filters. A filter must drop the operation
+    exactly when the name contains one of the patterns that were configured when *that* filter was created (ASCII-case-insensitively
+    if so configured at that time)."""
     import z3
     import _e3
     from mirsmt import sym, models, check, models_str as MS, models_coll as MC
     from mirsmt.sym import Ptr, Agg, Enum, Native, Fork, UNIT, bv, Opaque
     P = _e3.program(["metrics-util"])
-    layer_b = [b for b in P.by_last["layer"] if b.impl and b.impl[1] == "FilterLayer"][0]
-    ci_b = [b for b in P.by_last["case_insensitive"] if b.impl and b.impl[1] == "FilterLayer"][0]
-    dfa_b = [b for b in P.by_last["use_dfa"] if b.impl and b.impl[1] == "FilterLayer"][0]
-    add_b = [b for b in P.by_last["add_pattern"] if b.impl and b.impl[1] == "FilterLayer"][0]
-    matches = z3.Function("automaton_matches", z3.IntSort(), z3.BoolSort(), z3.IntSort(), z3.BoolSort())      # (pattern list id, case-insensitive, name) -> bool
+    fl = lambda n: [b for b in P.by_last[n] if b.impl and b.impl[1] == "FilterLayer"][0]
+    from_b, layer_b, ci_b, dfa_b, add_b = fl("from_patterns"), fl("layer"), fl("case_insensitive"), fl("use_dfa"), fl("add_pattern")
     ci0, ci1, dfa0, dfa1 = z3.Bool("ci_initial"), z3.Bool("ci_later"), z3.Bool("dfa_initial"), z3.Bool("dfa_later")
-    name = z3.Int("name")
-    plist = [0]
+
+    def lower(c):
+        return z3.If(z3.And(z3.UGE(c, bv(65, 32)), z3.ULE(c, bv(90, 32))), c + bv(32, 32), c)
+
+    def contains(name, pat, ci):
+        if len(pat) > len(name):
+            return z3.BoolVal(False)
+        alts = []
+        for i in range(len(name) - len(pat) + 1):
+            alts.append(z3.And(*[z3.If(ci, lower(x) == lower(y), x == y) for x, y in zip(name[i:i + len(pat)], pat)]))
+        return z3.Or(*alts)
+    shapes = [(1, 2), (2, 1)]
     for op in ("describe_counter", "describe_gauge", "describe_histogram", "register_counter", "register_gauge", "register_histogram"):
         for reconf in ("case_insensitive", "add_pattern"):
-            op_b = [b for b in P.by_last[op] if b.impl and b.impl[1] == "Filter"][0]
+            for plens in (shapes if op in ("describe_counter", "register_histogram") else shapes[:1]):
+                op_b = [b for b in P.by_last[op] if b.impl and b.impl[1] == "Filter"][0]
+                p0 = tuple(z3.BitVec(f"pat0_{i}", 32) for i in range(plens[0]))
+                p1 = tuple(z3.BitVec(f"pat1_{i}", 32) for i in range(plens[1]))
+                nm = tuple(z3.BitVec(f"name_{i}", 32) for i in range(3))
+                ascii_ = [z3.And(z3.UGE(c, bv(33, 32)), z3.ULE(c, bv(126, 32))) for c in p0 + p1 + nm]
 
-            def m_build(eng, ctx, f, path, args, dty):
-                bld = MC.load(eng, ctx, args[0])
-                pats = MC.load(eng, ctx, args[1])
-                return Enum(0, {0: Agg({0: Native("automaton", (pats.data, bld.data[0]))})}, "Result")
+                def on_model(ob, model, p0=p0, p1=p1, nm=nm, op=op, reconf=reconf):
+                    t = lambda b: int(z3.is_true(model.eval(b, model_completion=True)))
+                    inputs = {"op": OPS.index(op), "reconf": 0 if reconf == "case_insensitive" else 1, "ci0": t(ci0), "ci1": t(ci1), "dfa0": t(dfa0), "dfa1": t(dfa1)}
+                    inputs.update(text_inputs(model, "pat0", p0)); inputs.update(text_inputs(model, "pat1", p1)); inputs.update(text_inputs(model, "name", nm))
+                    ob.sample = dict(inputs)
+                    replay_native(ob, "c13_filter", ob.name.split(":")[1], inputs)
 
-            def m_is_match(eng, ctx, f, path, args, dty):
-                a = MC.load(eng, ctx, args[0])
-                pl, ci = a.data
-                return matches(z3.IntVal(pl), ci, name)
+                def m_build(eng, ctx, f, path, args, dty):
+                    bld = MC.load(eng, ctx, args[0])
+                    pats = MC.load(eng, ctx, args[1])
+                    if not (isinstance(pats, Native) and pats.kind in ("lvec", "strvec")):
+                        raise sym.Unsupported(f"AhoCorasickBuilder::build over {pats}")
+                    return Enum(0, {0: Agg({0: Native("automaton", (tuple(MS.as_items(eng, ctx, x) for x in pats.data), bld.data[0]))})}, "Result")
 
-            def m_inner(eng, ctx, f, path, args, dty):
-                r = MC.load(eng, ctx, args[0])
-                ctx.observe("forwarded", rec=r.data)
-                return Opaque("handle")
-            m = {r"^AhoCorasickBuilder::new$": lambda *a: Native("acbuilder", (z3.BoolVal(False), None)),
-                 r"^AhoCorasickBuilder::ascii_case_insensitive$": lambda eng, ctx, f, path, args, dty: (eng.store_ptr(ctx, args[0], Native("acbuilder", (eng.as_bool(args[1]), MC.load(eng, ctx, args[0]).data[1]))), args[0])[1],
-                 r"^AhoCorasickBuilder::kind$|^AhoCorasickBuilder::(match_kind|prefilter|start_kind|byte_classes|dense_depth)$": lambda eng, ctx, f, path, args, dty: args[0],
-                 r"then_some$": lambda *a: Opaque("kind"), r"^AhoCorasickBuilder::build$": m_build, r"^AhoCorasick::is_match$": m_is_match,
-                 r"^KeyName::as_str$|^Key::name$": lambda *a: Native("aname", name), r"as Recorder>::(describe|register)_(counter|gauge|histogram)$": m_inner,
-                 r"(Counter|Gauge|Histogram)::noop$": lambda *a: Native("noop", None),
-                 r"as AsRef>::as_ref$|as ToString>::to_string$": lambda eng, ctx, f, path, args, dty: MC.load(eng, ctx, args[0]),
-                 r"^Vec::push$": lambda eng, ctx, f, path, args, dty: (eng.store_ptr(ctx, args[0], Native("patterns", MC.load(eng, ctx, args[0]).data + 1)), UNIT)[1],
-                 r"as Clone>::clone$": lambda eng, ctx, f, path, args, dty: MC.load(eng, ctx, args[0])}
-            m.update(models.BASE)
-            eng = sym.Engine(P, models=m, loop_bound=4)
-            eng.merging = False
-            ctx0 = sym.Ctx(eng, 1)
-            ctx0.statics = {"fl": Agg({0: Native("patterns", 0), 1: ci0, 2: dfa0})}
+                def m_is_match(eng, ctx, f, path, args, dty):
+                    a = MC.load(eng, ctx, args[0])
+                    pats, ci = a.data
+                    hay = MS.as_items(eng, ctx, args[1])
+                    return z3.Or(*[contains(hay, p, ci) for p in pats]) if pats else z3.BoolVal(False)
 
-            def script():
-                f1 = yield ("call", layer_b, [Ptr(("static", "fl")), Native("rec", 1)])
+                def m_inner(eng, ctx, f, path, args, dty):
+                    r = MC.load(eng, ctx, args[0])
+                    ctx.observe("forwarded", rec=r.data)
+                    return Opaque("handle")
+                m = {r"^AhoCorasickBuilder::new$": lambda *a: Native("acbuilder", (z3.BoolVal(False), None)),
+                     r"^AhoCorasickBuilder::ascii_case_insensitive$": lambda eng, ctx, f, path, args, dty: (eng.store_ptr(ctx, args[0], Native("acbuilder", (eng.as_bool(args[1]), MC.load(eng, ctx, args[0]).data[1]))), args[0])[1],
+                     r"^AhoCorasickBuilder::kind$|^AhoCorasickBuilder::(match_kind|prefilter|start_kind|byte_classes|dense_depth)$": lambda eng, ctx, f, path, args, dty: args[0],
+                     r"then_some$": lambda *a: Opaque("kind"), r"^AhoCorasickBuilder::build$": m_build, r"^AhoCorasick::is_match$": m_is_match,
+                     r"^<AhoCorasick as Clone>::clone$": lambda eng, ctx, f, path, args, dty: MC.load(eng, ctx, args[0]),
+                     r"^KeyName::as_str$|^Key::name$": lambda *a: MS.sstr(nm), r"as Recorder>::(describe|register)_(counter|gauge|histogram)$": m_inner,
+                     r"(Counter|Gauge|Histogram)::noop$": lambda *a: Native("noop", None),
+                     r"as AsRef(<.*>)?>::as_ref$": lambda eng, ctx, f, path, args, dty: MC.load(eng, ctx, args[0])}
+                m.update(models.BASE)
+                eng = sym.Engine(P, models=m, loop_bound=5, max_paths=3000)
+                eng.merging = False
+                ctx0 = sym.Ctx(eng, 1)
+
+                def script():
+                    layer = yield ("call", from_b, [MS.lvec((MS.sstr(p0),))])
+                    yield ("setstatic", "fl", layer)
+                    yield ("call", ci_b, [Ptr(("static", "fl")), ci0])
+                    yield ("call", dfa_b, [Ptr(("static", "fl")), dfa0])
+                    f1 = yield ("call", layer_b, [Ptr(("static", "fl")), Native("rec", 1)])
+                    if reconf == "case_insensitive":
+                        yield ("call", ci_b, [Ptr(("static", "fl")), ci1])
+                        yield ("call", dfa_b, [Ptr(("static", "fl")), dfa1])
+                    else:
+                        yield ("call", add_b, [Ptr(("static", "fl")), MS.sstr(p1)])
+                    f2 = yield ("call", layer_b, [Ptr(("static", "fl")), Native("rec", 2)])
+                    yield ("setstatic", "f1", f1)
+                    yield ("setstatic", "f2", f2)
+                    args = [Native("aname", 0), Opaque("unit"), Opaque("desc")] if op.startswith("describe") else [Native("akey", 0), Opaque("metadata")]
+                    r1 = yield ("call", op_b, [Ptr(("static", "f1"))] + args)
+                    r2 = yield ("call", op_b, [Ptr(("static", "f2"))] + args)
+                    return Agg({0: r1, 1: r2})
+                leaves = eng.run_script(1, "filter", script, ctx0=ctx0)
+                e3.absorb(eng)
+                done = [l for l in leaves if l.status == "done"]
+                other = z3.Or(*[l.taken() for l in leaves if l.status != "done"] or [z3.BoolVal(False)])
+                want1 = z3.Not(contains(nm, p0, ci0))
                 if reconf == "case_insensitive":
-                    yield ("call", ci_b, [Ptr(("static", "fl")), ci1])
-                    yield ("call", dfa_b, [Ptr(("static", "fl")), dfa1])
+                    want2 = z3.Not(contains(nm, p0, ci1))
                 else:
-                    yield ("call", add_b, [Ptr(("static", "fl")), Native("astr", z3.Int("new_pattern"))])
-                f2 = yield ("call", layer_b, [Ptr(("static", "fl")), Native("rec", 2)])
-                yield ("setstatic", "f1", f1)
-                yield ("setstatic", "f2", f2)
-                args = [Native("aname", name), Opaque("unit"), Opaque("desc")] if op.startswith("describe") else [Native("akey", name), Opaque("metadata")]
-                r1 = yield ("call", op_b, [Ptr(("static", "f1"))] + args)
-                r2 = yield ("call", op_b, [Ptr(("static", "f2"))] + args)
-                return Agg({0: r1, 1: r2})
-            leaves = eng.run_script(1, "filter", script, ctx0=ctx0)
-            e3.absorb(eng)
-            done = [l for l in leaves if l.status == "done"]
-            other = z3.Or(*[l.taken() for l in leaves if l.status != "done"] or [z3.BoolVal(False)])
-            bad = []
-            for l in done:
-                fw = {1: z3.BoolVal(False), 2: z3.BoolVal(False)}
-                cnt = {1: z3.IntVal(0), 2: z3.IntVal(0)}
-                for lab, e, pl in l.obs:
-                    if lab == "forwarded":
-                        fw[pl["rec"]] = z3.Or(fw[pl["rec"]], e.guard)
-                        cnt[pl["rec"]] = cnt[pl["rec"]] + z3.If(e.guard, 1, 0)
-                want1 = z3.Not(matches(z3.IntVal(0), ci0, name))
-                want2 = z3.Not(matches(z3.IntVal(0 if reconf == "case_insensitive" else 1), ci1 if reconf == "case_insensitive" else ci0, name))
-                inert = z3.BoolVal(True)
-                if op.startswith("register"):
-                    # a dropped registration hands out an inert handle, a forwarded one the inner recorder's handle
-                    for i, want in ((0, want1), (1, want2)):
-                        r = l.ret.f[i]
-                        is_noop = isinstance(r, Native) and r.kind == "noop"
-                        inert = z3.And(inert, z3.BoolVal(is_noop) == z3.Not(want))
-                bad.append(z3.And(l.taken(), z3.Not(z3.And(fw[1] == want1, fw[2] == want2, cnt[1] <= 1, cnt[2] <= 1, inert))))
-            cname = f"c13_filter_{op}_{reconf}"
-            bounds = (f"FilterLayer: layer(r1); {'case_insensitive(b); use_dfa(b)' if reconf == 'case_insensitive' else 'add_pattern(p)'}; layer(r2); then {op} through both filters; "
-                      f"configuration flags, the name and the automaton's verdict symbolic; {len(done)} paths")
-            specs = [dict(name=f"{cname}:witness", desc="completes", bounds=bounds, cons=[z3.Or(*[l.taken() for l in done] or [z3.BoolVal(False)])], expect_unsat=False),
-                     dict(name=f"{cname}:returns", desc="panics", bounds=bounds, cons=[other], expect_unsat=True),
-                     dict(name=f"{cname}:dropped_iff_current_configuration_matches", desc="an operation is forwarded although the automaton for the configuration at layer() time matches the name, dropped although it does not, "
-                          "forwarded twice, or a dropped registration does not return an inert handle", bounds=bounds, cons=[z3.Or(*bad or [z3.BoolVal(False)])], expect_unsat=True)]
-            check.discharge_many(e3.res, specs, 120)
+                    want2 = z3.Not(z3.Or(contains(nm, p0, ci0), contains(nm, p1, ci0)))
+                bad = []
+                for l in done:
+                    fw = {1: z3.BoolVal(False), 2: z3.BoolVal(False)}
+                    cnt = {1: z3.IntVal(0), 2: z3.IntVal(0)}
+                    for lab, e, pl in l.obs:
+                        if lab == "forwarded":
+                            fw[pl["rec"]] = z3.Or(fw[pl["rec"]], e.guard)
+                            cnt[pl["rec"]] = cnt[pl["rec"]] + z3.If(e.guard, 1, 0)
+                    inert = z3.BoolVal(True)
+                    if op.startswith("register"):
+                        # a dropped registration hands out an inert handle, a forwarded one the inner recorder's handle
+                        for i, want in ((0, want1), (1, want2)):
+                            r = l.ret.f[i]
+                            is_noop = isinstance(r, Native) and r.kind == "noop"
+                            inert = z3.And(inert, z3.BoolVal(is_noop) == z3.Not(want))
+                    bad.append(z3.And(l.taken(), z3.Not(z3.And(fw[1] == want1, fw[2] == want2, cnt[1] <= 1, cnt[2] <= 1, inert))))
+                cname = f"c13_filter_{op}_{reconf}_p{plens[0]}{plens[1]}"
+                bounds = (f"FilterLayer::from_patterns([p0]); case_insensitive(b0); use_dfa(d0); layer(r1); {'case_insensitive(b1); use_dfa(d1)' if reconf == 'case_insensitive' else 'add_pattern(p1)'}; layer(r2); then {op} "
+                          f"through both filters; patterns of {plens[0]} and {plens[1]} printable ASCII characters, name of 3 printable ASCII characters, flags: all symbolic; {len(done)} paths")
+                specs = [dict(name=f"{cname}:witness", desc="completes", bounds=bounds, cons=ascii_ + [z3.Or(*[l.taken() for l in done] or [z3.BoolVal(False)])], expect_unsat=False),
+                         dict(name=f"{cname}:returns", desc="panics", bounds=bounds, cons=ascii_ + [other], expect_unsat=True),
+                         dict(name=f"{cname}:dropped_iff_current_configuration_matches", desc="an operation is forwarded although its name contains a pattern configured when the filter was created (case-insensitively if so configured then), "
+                              "dropped although it does not, forwarded twice, or a dropped registration does not return an inert handle", bounds=bounds, cons=ascii_ + [z3.Or(*bad or [z3.BoolVal(False)])], expect_unsat=True, on_model=on_model)]
+                check.discharge_many(e3.res, specs, 120)
 
 
 def run(tier, seed, t0):
@@ -285,4 +348,9 @@ def run(tier, seed, t0):
 
 
 def replay(path):
+    if path.endswith(".plan"):
+        import replay_e3
+        status, out = replay_e3.run("c13", path)
+        print(status, out)
+        return 1 if status == "reproduced" else 0
     return _kprop.replay(path)
